@@ -317,7 +317,7 @@ const SPACE: &str = "Execution space: every `//! > cairo_code` snippet of tests/
 pub static C02: CheckDef = CheckDef {
     id: "C02",
     level: "exploration",
-    rule: "(a) Execution space x configurations {default, default+legacy metadata solvers, optimizations disabled (+3 corner configs and no-auto-withdraw-gas in thorough)} x gas budgets {ample, exactly the required entry gas, +100, +1070, +5000} so that out-of-gas is hit at several points. (b) accepted mutants: every single-point mutant (C14 operators) of small e2e Sierra programs that registry+metadata+compile accept and that only uses audited libfuncs, run on the boundary inputs. (c) the bounded_int_div_rem lattice (16 dividend ranges incl. perfect squares and their neighbours x 12 divisor ranges around the thresholds of the three verification schemes) on operand pairs derived from the instantiation: divisor and quotient each at the range ends, at floor(sqrt(max dividend)) +-1, at the divisor, at T = (P-1)/2^128 +-1, 2^64, 2^128 +-1, with remainders 0, 1, b-1; (d) the bounded-integer lattice of bounded.rs (downcast between 21 ranges in every relative position, constrain, trim, add / sub / mul). Oracle: the run returns Ok (value or Sierra-level panic); Err(CairoRunError) or a runner panic is the violation. distinct_nontrivial = distinct (program, config, function, args, gas) tuples executed.",
+    rule: "(a) Execution space x configurations {default, default+legacy metadata solvers, optimizations disabled (+3 corner configs and no-auto-withdraw-gas in thorough)} x gas budgets {ample, exactly the required entry gas, +100, +1070, +5000} so that out-of-gas is hit at several points. (b) accepted mutants: every single-point mutant (C14 operators) of small e2e Sierra programs that registry+metadata+compile accept and that only uses audited libfuncs, run on the boundary inputs. (c) the bounded_int_div_rem lattice (16 dividend ranges incl. perfect squares and their neighbours x 12 divisor ranges around the thresholds of the three verification schemes) on operand pairs derived from the instantiation: divisor and quotient each at the range ends, at floor(sqrt(max dividend)) +-1, at the divisor, at T = (P-1)/2^128 +-1, 2^64, 2^128 +-1, with remainders 0, 1, b-1; (d) the bounded-integer lattice of bounded.rs (downcast between 24 ranges in every relative position, constrain, trim, add / sub / mul). Oracle: the run returns Ok (value or Sierra-level panic); Err(CairoRunError) or a runner panic is the violation. distinct_nontrivial = distinct (program, config, function, args, gas) tuples executed.",
     assumptions: &["honest hints = the runner's CairoHintProcessor", "Starknet syscalls/cheatcodes are out of scope (not pure Sierra)", "argument-shape and not-enough-gas-to-call RunnerErrors are harness input errors, counted not judged"],
     run: run_c02,
     stack_mb: 16,
